@@ -258,6 +258,15 @@ pub fn exec(op: &Op) -> Vec<u8> {
                 out.extend(v.encode());
             }
             out.extend(x0.trace().to_le_bytes());
+            // bit accessors on a raw value and on a computed one, at the generated index and at the positions the reduction touches
+            let pr = x0 * x1;
+            for k in [(*n % 127) as usize, 0, 63, 64, 126] {
+                out.extend(x0.get_bit(k).to_le_bytes());
+                out.extend(pr.get_bit(k).to_le_bytes());
+                let mut s = pr;
+                s.set_bit(k, *j);
+                out.extend(s.encode());
+            }
             let mut t = x0;
             t.xor_bit((*n % 127) as usize, 1);
             t.set_bit(((*n / 2) % 127) as usize, *j);
